@@ -11,6 +11,7 @@ import (
 	cctx "github.com/xuperchain/xupercore/kernel/consensus/context"
 	"github.com/xuperchain/xupercore/kernel/engines/xuperos"
 	"github.com/xuperchain/xupercore/kernel/engines/xuperos/common"
+	engconf "github.com/xuperchain/xupercore/kernel/engines/xuperos/config"
 	"github.com/xuperchain/xupercore/kernel/engines/xuperos/miner"
 	"github.com/xuperchain/xupercore/lib/timer"
 )
@@ -53,6 +54,7 @@ func (n *Node) Chain() *xuperos.Chain {
 
 func (n *Node) chainCtx(proposer *Key) *common.ChainCtx {
 	c := &common.ChainCtx{
+		EngCtx:    &common.EngineCtx{EngCfg: engconf.GetDefEngineConf()},
 		BCName:    BCName,
 		Ledger:    n.Ledger,
 		State:     n.State,
@@ -90,4 +92,18 @@ func (n *Node) ConfirmForMiner(b *pb.InternalBlock) error {
 // walks to the target, then the ledger is truncated to it).
 func (n *Node) TruncateForMiner(target []byte) error {
 	return n.withRecovery(func() error { return n.Miner(K(0)).VerifTruncateForMiner(n.reqCtx(), target) })
+}
+
+// ProcBlock hands a block received from a peer to the engine's real miner (Miner.ProcBlock: size
+// and per-transaction validity checks, pending store, VerifyBlock, consensus check, ConfirmBlock,
+// Walk to the new ledger tip). The miner object lives as long as the node instance: it remembers
+// the height it has synchronised to. No network is needed while the block's parent is stored.
+func (n *Node) ProcBlock(b *pb.InternalBlock) error {
+	n.chainMu.Lock()
+	if n.recvMiner == nil {
+		n.recvMiner = miner.NewMiner(n.chainCtx(K(0)))
+	}
+	m := n.recvMiner
+	n.chainMu.Unlock()
+	return n.withRecovery(func() error { return m.ProcBlock(n.reqCtx(), CloneBlock(b)) })
 }
